@@ -4,6 +4,7 @@ use crate::framework::{DynScenario, Erased};
 use std::sync::Arc;
 
 pub mod cache;
+pub mod cdn;
 pub mod conc;
 pub mod corrupt;
 pub mod crash;
